@@ -152,6 +152,16 @@ def run_case(case, ctx):
                 c.update({kk: k[kk] for kk in ('slot_width', 'baud_rate', 'roll_off', 'tx_power_dbm', 'label')})
                 c['frequency'] = carriers[0]['frequency'] + i * k['slot_width']
             carriers = [c for c in carriers if c['frequency'] + c['slot_width'] / 2 <= 196.05e12]
+        if carriers and rng.random() < 0.25:
+            # carrier distances that are not multiples of any grid step: the comb is stretched by a factor close to one
+            # (47 GHz instead of 50 GHz ...), slots stay non-overlapping; the closed form is evaluated on the true
+            # distances
+            f0 = carriers[0]['frequency']
+            stretch = G.pick(rng, [1.06, 1.013, 1.1337])
+            for c in carriers:
+                c['frequency'] = f0 + (c['frequency'] - f0) * stretch + 1.7e9
+            carriers = [c for c in carriers if c['frequency'] + c['slot_width'] / 2 <= 199e12]
+            ctx.count('combs_off_any_grid')
         if not carriers:
             continue
         n = len(carriers)
@@ -287,21 +297,33 @@ def run_case(case, ctx):
             ctx.skip('nli-above-half-channel-power')
 
         # (2) laws on the real solver
-        srs = None
+        # the solver is called the way Fiber.propagate calls it: with the power profile computed for this very spectrum;
+        # in a third of the cases the Raman computation is on (stimulated scattering resolved): the analytic GN method
+        # is defined on the fibre's loss coefficient all the same, so its laws hold exactly
+        raman_on = rng.random() < 0.3 and n <= 40
+        old_raman = SimParams._shared_dict['raman_params']
+        if raman_on:
+            from gnpy.core.parameters import RamanParams
+            SimParams._shared_dict['raman_params'] = RamanParams(flag=True, result_spatial_resolution=10e3,
+                                                                 solver_spatial_resolution=10e3)
+            ctx.count('law_checks_with_raman_on')
+
+        def nli_of(si_x):
+            return NliSolver.compute_nli(si_x, RamanSolver.calculate_stimulated_raman_scattering(si_x, fiber), fiber)
         base_si = make_si(carriers)
-        nli0 = np.asarray(NliSolver.compute_nli(base_si, srs, fiber), dtype=float)
+        nli0 = np.asarray(nli_of(base_si), dtype=float)
         ctx.count('nonneg_checks')
         if np.any(nli0 < 0) or not np.all(np.isfinite(nli0)):
             ctx.violation('nli-negative', 'negative or non-finite NLI', {'nli': nli0[:8], 'fibre': fparams})
         k = G.pick(rng, [0.5, 2.0, 3.0, 0.1, 10 ** 0.13])
-        nli_k = np.asarray(NliSolver.compute_nli(make_si(carriers, scale=k), srs, fiber), dtype=float)
+        nli_k = np.asarray(nli_of(make_si(carriers, scale=k)), dtype=float)
         ctx.count('cube_law_checks')
         if rel_dev(nli_k, nli0 * k ** 3) > 1e-11:
             ctx.violation('cube-law', f'common power factor {k}: NLI did not scale with k^3 '
                           f'(rel dev {rel_dev(nli_k, nli0 * k ** 3):.2e})', {'fibre': fparams, 'n': n})
         order = list(range(n))
         rng.shuffle(order)
-        nli_o = np.asarray(NliSolver.compute_nli(make_si(carriers, order=order), srs, fiber), dtype=float)
+        nli_o = np.asarray(nli_of(make_si(carriers, order=order)), dtype=float)
         ctx.count('order_checks')
         if rel_dev(nli_o, nli0) > 1e-12:
             ctx.violation('order-dependence', f'NLI depends on the supply order (rel dev {rel_dev(nli_o, nli0):.2e})',
@@ -310,7 +332,7 @@ def run_case(case, ctx):
         from gnpy.core.info import carriers_to_spectral_information
         shuffled = [carriers[i] for i in order]
         si_m = carriers_to_spectral_information(G.carriers_to_initial_spectrum(shuffled), power=1e-3)
-        nli_m = np.asarray(NliSolver.compute_nli(si_m, srs, fiber), dtype=float)
+        nli_m = np.asarray(nli_of(si_m), dtype=float)
         ctx.count('order_checks_mapping')
         if rel_dev(nli_m, nli0) > 1e-12:
             ctx.violation('order-dependence', 'NLI depends on the order in which the {frequency: Carrier} mapping was '
@@ -318,19 +340,20 @@ def run_case(case, ctx):
         if n >= 2:
             # raise one channel's power
             j = rng.randrange(n)
-            nli_b = np.asarray(NliSolver.compute_nli(make_si(carriers, bump=(freqs[j], 1.7)), srs, fiber), dtype=float)
+            nli_b = np.asarray(nli_of(make_si(carriers, bump=(freqs[j], 1.7))), dtype=float)
             ctx.count('monotonic_checks')
             if np.any(nli_b < nli0 * (1 - 1e-12)):
                 ctx.violation('not-monotonic-in-power', f'raising channel {j} lowered some NLI',
                               {'fibre': fparams, 'before': nli0[:8], 'after': nli_b[:8]})
             # remove one channel: every remaining channel's NLI must not increase
             keep = [c for i, c in enumerate(carriers) if i != j]
-            nli_r = np.asarray(NliSolver.compute_nli(make_si(keep), srs, fiber), dtype=float)
+            nli_r = np.asarray(nli_of(make_si(keep)), dtype=float)
             full = np.delete(nli0, j)
             ctx.count('monotonic_checks')
             if np.any(full < nli_r * (1 - 1e-12)):
                 ctx.violation('not-monotonic-in-channels', f'adding channel {j} lowered some NLI',
                               {'fibre': fparams, 'without': nli_r[:8], 'with': full[:8]})
+        SimParams._shared_dict['raman_params'] = old_raman
         # (3) the same laws for the generalised GN methods on small combs (no closed form is claimed for them)
         if 3 <= n <= 6 and fparams['length'] > 1 and rng.random() < 0.5:
             method = G.pick(rng, ['ggn_spectrally_separated', 'ggn_approx'])
